@@ -2092,3 +2092,45 @@ def ops_to_bins(e):
         return E(x.kind, name=x.name, args=[ops_to_bins(a) for a in x.args], root=x.root, fields=x.fields,
                  const=x.const, site=x.site, extra=x.extra, proj=x.proj)
     return x
+
+
+def rv_locals(rv):
+    """locals read by an rvalue"""
+    out = set()
+    for key in ('op', 'a', 'b'):
+        o = rv.get(key)
+        if isinstance(o, dict) and o.get('k') in ('copy', 'move'):
+            out.add(o['pl']['l'])
+    if isinstance(rv.get('pl'), dict):
+        out.add(rv['pl']['l'])
+    for o in rv.get('ops', []) or []:
+        if isinstance(o, dict) and o.get('k') in ('copy', 'move'):
+            out.add(o['pl']['l'])
+    return out
+
+
+def backward_locals(body, start_defs):
+    """locals whose value can flow (flow-insensitively, through assignments, projections and call arguments) into the
+    given definitions; start_defs: iterable of defs() entries.  Used for 'this result derives from that buffer'."""
+    defs = body.defs()
+    seen = set()
+    todo = []
+
+    def feed(d):
+        if d[0] == 'assign':
+            todo.extend(rv_locals(d[3]['rv']))
+        elif d[0] == 'call':
+            c = d[2]
+            for a in c.args:
+                if a.get('k') in ('copy', 'move'):
+                    todo.append(a['pl']['l'])
+    for d in start_defs:
+        feed(d)
+    while todo:
+        l = todo.pop()
+        if l in seen:
+            continue
+        seen.add(l)
+        for d in defs.get(l, []) + defs.get((l, 'proj'), []):
+            feed(d)
+    return seen
